@@ -88,7 +88,7 @@ struct my_syscall_info {
 #define PBUF (2 * PATH_MAX + 16)
 #define DETMAX 40000
 
-enum { MODE_RECORD, MODE_COUNT, MODE_KILL };
+enum { MODE_RECORD, MODE_COUNT, MODE_KILL, MODE_FAIL };
 
 struct sc {
 	int entry;
@@ -111,11 +111,13 @@ struct tstate {
 	int in_syscall;        /* toggle, used only without GET_SYSCALL_INFO */
 	int held;              /* stopped at entry, queued for the gate */
 	int have_pending;      /* recorded call in flight (owns the gate) */
+	int fail_pending;      /* MODE_FAIL: this call was turned into a no-op, its result is forged at the exit stop */
 	struct rec pending;
 };
 
 static int mode;
 static long kill_k;
+static long fail_errno; /* MODE_FAIL: the K-th counted call does not execute and returns -fail_errno */
 static char rootdir[PATH_MAX];
 static size_t rootlen;
 static FILE *trace;
@@ -866,6 +868,19 @@ static void admit(struct tstate *t, struct rec *r)
 		r->seq = ++counter;
 		if (mode == MODE_KILL && r->seq == kill_k)
 			do_kill(t, r);
+		if (mode == MODE_FAIL && r->seq == kill_k) {
+			/* fault injection: replace the call by an invalid one (it does not execute) and
+			 * forge its result at the exit stop */
+			struct user_regs_struct regs;
+			if (ptrace(PTRACE_GETREGS, t->tid, 0, &regs) == 0) {
+				regs.orig_rax = (unsigned long long)-1;
+				if (ptrace(PTRACE_SETREGS, t->tid, 0, &regs) == 0)
+					t->fail_pending = 1;
+			}
+			if (!t->fail_pending)
+				die("fail: cannot rewrite call #%ld", r->seq);
+			fprintf(stderr, "killat: failing #%ld %s %s with errno %ld\n", r->seq, r->name, r->details, fail_errno);
+		}
 	}
 	t->pending = *r;
 	t->have_pending = 1;
@@ -935,6 +950,15 @@ static void on_syscall_stop(struct tstate *t)
 	/* exit stop */
 	if (t->have_pending) {
 		struct rec *p = &t->pending;
+		if (t->fail_pending) {
+			struct user_regs_struct regs;
+			if (ptrace(PTRACE_GETREGS, t->tid, 0, &regs) == 0) {
+				regs.rax = (unsigned long long)(-fail_errno);
+				ptrace(PTRACE_SETREGS, t->tid, 0, &regs);
+			}
+			s.ret = -fail_errno;
+			t->fail_pending = 0;
+		}
 		if (s.ret <= -512 && s.ret >= -516)
 			fprintf(stderr, "killat: warning: #%ld %s returned ERESTART (%ld); the restart will be counted again\n",
 				p->seq, p->name, s.ret);
@@ -991,7 +1015,8 @@ static void usage(void)
 		"killat: usage:\n"
 		"  killat record <tracefile> <rootdir> -- <cmd> [args...]\n"
 		"  killat count <rootdir> -- <cmd> [args...]\n"
-		"  killat kill <K> <rootdir> -- <cmd> [args...]\n");
+		"  killat kill <K> <rootdir> -- <cmd> [args...]\n"
+		"  killat fail <K> <errno> <tracefile> <rootdir> -- <cmd> [args...]\n");
 	exit(EXIT_ERROR);
 }
 
@@ -1018,6 +1043,18 @@ int main(int argc, char **argv)
 		kill_k = strtol(argv[i++], &e, 10);
 		if (*e || kill_k < 1)
 			die("kill: K must be an integer >= 1");
+	} else if (!strcmp(argv[1], "fail")) {
+		mode = MODE_FAIL;
+		if (argc < 8)
+			usage();
+		char *e;
+		kill_k = strtol(argv[i++], &e, 10);
+		if (*e || kill_k < 1)
+			die("fail: K must be an integer >= 1");
+		fail_errno = strtol(argv[i++], &e, 10);
+		if (*e || fail_errno < 1 || fail_errno > 4095)
+			die("fail: errno must be an integer in 1..4095");
+		tracefile = argv[i++];
 	} else {
 		usage();
 	}
